@@ -276,3 +276,12 @@ func (s *shadow) ready(h int) bool {
 	}
 	return true
 }
+
+// recvArr: the generator's view of a Recv on an array-backed reader (its remainder decides
+// whether a later merge yields an array reader or an empty multi reader).
+func (s *shadow) recvArr(h int) {
+	sh := s.hs[h]
+	if sh.kind == "arr" && sh.delivered < len(sh.e.strands(nil)[0]) {
+		sh.delivered++
+	}
+}
